@@ -46,12 +46,12 @@ void harness(void) {
   enum { WA = WORDS(LL), WB = WORDS(NN), RSA = (WA & 1) ? WA + 1 : WA, RSB = (WB & 1) ? WB + 1 : WB };
   vlcg_seed(VSEED);
   verif_init(KINIT);
-  mzd_t *A = mzd_init(MM, LL);
+  mzd_t *A = vop_raw(MM, LL, 0, 0);
   vfill_mixed(A, APAT, A_SYM_R0, A_SYM_R1, A_SYM_W0, A_SYM_W1);
 #ifdef SQUARE
   mzd_t *B = A; /* same object: squaring dispatch */
 #else
-  mzd_t *B = mzd_init(LL, NN);
+  mzd_t *B = vop_raw(LL, NN, 1, 0);
   vfill_mixed(B, BPAT, B_SYM_R0, B_SYM_R1, B_SYM_W0, B_SYM_W1);
 #endif
   static word a[MM * WA], b[LL * WB], c[MM * WB], sa[MM * RSA], sb[LL * RSB];
@@ -59,7 +59,7 @@ void harness(void) {
   vsnap(sa, A); vsnap(sb, B);
   mzd_t *C = NULL;
   int acc = (ROUTE == 1 || ROUTE == 3 || ROUTE == 5 || ROUTE == 7 || ROUTE == 11);
-  if (CMODE == 1 || acc) { C = mzd_init(MM, NN); vfill(C); }
+  if (CMODE == 1 || acc) { C = vop(MM, NN, 2); }
   if (C) ref_from_mzd(c, WB, C);
   mzd_t *R;
 #if ROUTE == 0
@@ -67,7 +67,7 @@ void harness(void) {
 #elif ROUTE == 1
   R = mzd_addmul_naive(C, A, B);
 #elif ROUTE == 2
-  if (!C) C = mzd_init(MM, NN);
+  if (!C) C = vop_raw(MM, NN, 2, 0);
   R = _mzd_mul_va(C, A, B, 1);
 #elif ROUTE == 3
   R = _mzd_mul_va(C, A, B, 0);
@@ -87,8 +87,9 @@ void harness(void) {
   VASSERT(C == NULL || R == C, "returns the supplied destination");
   VASSERT(R->nrows == MM && R->ncols == NN, "result dims");
   ref_mul(c, a, MM, LL, WA, b, WB, acc);
-  VASSERT(ref_eq_mzd(c, WB, R, 1), acc ? "C == C0 + A*B, padding zero" : "C == A*B, padding zero");
+  VASSERT(ref_eq_mzd(c, WB, R, VOWNED(R)), "C == A*B (accumulate routes: C0 + A*B), padding zero");
   VASSERT(vsnap_same(sa, A), "A unchanged");
   VASSERT(vsnap_same(sb, B), "B unchanged");
+  VFRAMES();
   VDONE();
 }
